@@ -21,6 +21,21 @@
 // between handshake and meta sync, or once the follower has caught up · leader stopped for exactly
 // the first meta-sync RPC.
 //
+// Further states/scenarios: S/BA/BB — the same history differing by exactly the follower's 10 MiB
+// gap threshold (+1 byte / +0), follower ahead and behind (caches > 10 MiB written in 256 KiB pieces);
+// switchrdb — the leader restarts under another id while the follower downloads its snapshot (all
+// backends since the S3 dead-lock was repaired in the repository; VERIF_C16_NO_S3=1 leaves the
+// disk leaders out).
+//
+// Intermediate states: the sampler judges every declared state from the declaration alone (snapshot
+// (offset,size) must be a snapshot of that id; range not below the id's history; not beyond what the
+// leader was fed) and hands every distinct one to a state checker that reads its bytes back while
+// Run() is active (memory: through the API, bytes actually served only; disk: from the cache's files,
+// because an API reader may be a snapshot reader and those dead-lock a cache reset — S3).  A result
+// is dropped when the declaration moved while it was being read.  Progress: livelockRounds identical
+// sync rounds (same request, same answer) against an unchanged leader end the wait with the verdict
+// sync-livelock; 4 sessions without storing anything of a healthy leader = no-resync.
+//
 // Oracle (oracle.go): whenever inspected — once while Run() is active and idle, after a cut, after
 // Stop — everything the follower's channel declares valid under its current id must read back, end
 // to end, as PRF(id, offset) (log) / PRF(id, left, i) (snapshot, complete), equal the leader's copy
@@ -58,8 +73,12 @@ const (
 	scCutRetry   = "cutretry"   // cut and let the follower's own retry loop recover
 	scSwitch2    = "switch2"    // leader restarts under another id between handshake and meta sync
 	scSwitchLate = "switchlate" // leader restarts under another id once the follower has caught up
+	scSwitchRdb  = "switchrdb"  // leader restarts under another id while the follower downloads its snapshot
 	scBounce     = "bounce"     // leader stopped for exactly the first meta-sync RPC
 )
+
+// ReplicaFollower.preSync drops the cache when it is more than this far behind the leader
+const gapThreshold = 10 * 1024 * 1024
 
 var stateNames = []string{"E", "P", "Q", "C", "CS", "O", "OL"}
 
@@ -99,6 +118,12 @@ func mkHist(name, idX, idY string, j int64) hist {
 		return hist{Name: name, ID: idX, RdbLeft: 45000 + j, RdbSize: 16000, LogLeft: 45000 + j, LogRight: 57000 + j}
 	case "O": // another id, reaching beyond every X state
 		return hist{Name: name, ID: idY, RdbLeft: 500 + j, RdbSize: 9000, LogLeft: 500 + j, LogRight: 70000 + j}
+	case "S": // short history of X (for the 10 MiB threshold cases)
+		return hist{Name: name, ID: idX, RdbLeft: 1000 + j, RdbSize: 20000, LogLeft: 1000 + j, LogRight: 3000 + j}
+	case "BA": // the same history, more than 10 MiB (the follower's gap threshold) further than S: by one byte
+		return hist{Name: name, ID: idX, RdbLeft: 1000 + j, RdbSize: 20000, LogLeft: 1000 + j, LogRight: 3000 + j + gapThreshold + 1}
+	case "BB": // exactly the threshold further than S (not above it)
+		return hist{Name: name, ID: idX, RdbLeft: 1000 + j, RdbSize: 20000, LogLeft: 1000 + j, LogRight: 3000 + j + gapThreshold}
 	case "G": // leader only: the Q history grown further, then older positions removed by the cache's collector
 		return hist{Name: name, ID: idX, RdbLeft: 1000 + j, RdbSize: 20000, LogLeft: 1000 + j, LogRight: 41000 + j}
 	case "OL": // another id, below every X state
@@ -116,7 +141,7 @@ func buildCases(r *harness.Run) []*caseSpec {
 		switch c.Scn {
 		case scCut, scCutRetry:
 			key += fmt.Sprintf(":x%d:k%d", c.CutXfer, c.CutK)
-		case scSwitch2, scSwitchLate:
+		case scSwitch2, scSwitchLate, scSwitchRdb:
 			if c.SwitchLow {
 				key += ":low"
 			} else {
@@ -136,7 +161,12 @@ func buildCases(r *harness.Run) []*caseSpec {
 			c.LH = hist{Name: "E"}
 			c.ZH = hist{Name: "E-live", ID: idX, RdbLeft: 30000000 + j, RdbSize: 24000, LogLeft: 30000000 + j, LogRight: 30000000 + j + 6000}
 		}
-		if c.Scn == scSwitch2 || c.Scn == scSwitchLate {
+		if c.Scn == scSwitchRdb && c.BL == backendDisk {
+			// larger than the disk reader's pipe and buffer (2 MiB): the leader's snapshot reader is
+			// still open when the restart resets the cache
+			c.LH.RdbSize = 3 << 20
+		}
+		if c.Scn == scSwitch2 || c.Scn == scSwitchLate || c.Scn == scSwitchRdb {
 			if c.SwitchLow { // new id whose positions lie inside what an X follower already holds
 				c.ZH = hist{Name: "Z-low", ID: idZ, RdbLeft: 2000 + j, RdbSize: 8000, LogLeft: 2000 + j, LogRight: 7000 + j}
 			} else {
@@ -148,15 +178,20 @@ func buildCases(r *harness.Run) []*caseSpec {
 		if c.L == "G" {
 			c.LogSizeL, c.MaxSizeL = 4096, 30000
 		}
+		if strings.HasPrefix(c.L, "B") || strings.HasPrefix(c.F, "B") {
+			c.LogSizeL, c.LogSizeF = 4<<20, 3<<20
+		}
 		burst := []int64{1, 17, 700, 4095, 4096, 4097, 9000}
 		for i := 0; i < 3; i++ {
 			c.Bursts = append(c.Bursts, burst[rng.Intn(len(burst))])
 		}
 		// slow cases first
 		switch {
+		case strings.HasPrefix(c.L, "B") || strings.HasPrefix(c.F, "B"):
+			c.weight = 5
 		case c.L == "E":
 			c.weight = 3
-		case c.Scn == scCutRetry || c.Scn == scSwitch2 || c.Scn == scSwitchLate || c.Scn == scBounce:
+		case c.Scn == scSwitchRdb || c.Scn == scCutRetry || c.Scn == scSwitch2 || c.Scn == scSwitchLate || c.Scn == scBounce:
 			c.weight = 2
 		case c.F == "O" || c.L == "OL":
 			c.weight = 4
@@ -180,6 +215,21 @@ func buildCases(r *harness.Run) []*caseSpec {
 		for _, f := range []string{"E", "P", "Q", "C", "O"} {
 			for _, cb := range combos {
 				add(caseSpec{L: "G", F: f, BL: cb[0], BF: cb[1], Proc: "same", Scn: scPlain, Variant: v})
+			}
+		}
+		// A''. the 10 MiB gap threshold, crossed in both directions, follower ahead and behind
+		bigCombos := [][2]string{{backendDisk, backendDisk}, {backendMem, backendMem}}
+		if !r.Quick() {
+			bigCombos = combos
+		}
+		if v < r.N(1, 2) {
+			for _, p := range [][2]string{{"S", "BA"}, {"S", "BB"}, {"BA", "S"}, {"BB", "S"}} {
+				for _, cb := range bigCombos {
+					add(caseSpec{L: p[0], F: p[1], BL: cb[0], BF: cb[1], Proc: "same", Scn: scPlain, Variant: v})
+					if cb[1] == backendDisk && p[0] == "S" && (p[1] == "BA" || !r.Quick()) {
+						add(caseSpec{L: p[0], F: p[1], BL: cb[0], BF: cb[1], Proc: "fresh", Scn: scPlain, Variant: v})
+					}
+				}
 			}
 		}
 		// B. a cut at every message of small transfers
@@ -216,6 +266,14 @@ func buildCases(r *harness.Run) []*caseSpec {
 				}
 				for _, f := range []string{"E", "P"} {
 					add(caseSpec{L: "Q", F: f, BL: cb[0], BF: cb[1], Proc: "same", Scn: scSwitchLate, SwitchLow: low, Variant: v})
+				}
+			}
+			// (a disk leader dead-locked here before side finding S3 was repaired)
+			if cb[0] == backendMem || os.Getenv("VERIF_C16_NO_S3") == "" {
+				for _, low := range []bool{true, false} {
+					for _, f := range []string{"P", "C"} {
+						add(caseSpec{L: "CS", F: f, BL: cb[0], BF: cb[1], Proc: "same", Scn: scSwitchRdb, SwitchLow: low, Variant: v})
+					}
 				}
 			}
 			add(caseSpec{L: "Q", F: "P", BL: cb[0], BF: cb[1], Proc: "same", Scn: scBounce, Variant: v})
@@ -284,10 +342,17 @@ type caseRun struct {
 	lf     *feeder
 	ln     *leaderNode
 	pre    chanState
+	wd     *world
+	fdir   string
 	rng    *rand.Rand
 	st     checkStats
 	t0     time.Time
 	hsBase int
+
+	stateCh   chan chanState // distinct declared states, for byte checks while Run() is active
+	checkDone chan struct{}
+	checked   map[chanState]bool
+	livelock  string
 
 	mu       sync.Mutex
 	trace    []traceEntry
@@ -339,9 +404,29 @@ func (cr *caseRun) sampler() {
 		lid, fed := cr.lf.fedUpTo()
 		cr.mu.Lock()
 		cr.samples++
-		if first || fs.ID != last.ID || fs.Left != last.Left || fs.RdbLeft != last.RdbLeft || (fs.Right != last.Right && (last.Right < 0 || fs.Right < last.Right)) {
+		if first || fs.ID != last.ID || fs.Left != last.Left || fs.RdbLeft != last.RdbLeft || fs.RdbSize != last.RdbSize || (fs.Right != last.Right && (last.Right < 0 || fs.Right < last.Right)) {
 			if len(cr.trace) < 60 {
 				cr.trace = append(cr.trace, traceEntry{At: fmt.Sprintf("%.3fs", time.Since(cr.t0).Seconds()), State: fs})
+			}
+			// every distinct intermediate state: what can be judged from the declaration alone is
+			// judged here, the bytes behind it by the state checker
+			for _, f := range cr.wd.metaFindings(fs, "while-running") {
+				dup := false
+				for _, g := range cr.findings {
+					dup = dup || g.Sig == f.Sig
+				}
+				if !dup {
+					cr.findings = append(cr.findings, f)
+				}
+			}
+			k := fs
+			k.Right = 0
+			if fs.ID != "" && !cr.checked[k] && len(cr.checked) < 12 {
+				cr.checked[k] = true
+				select {
+				case cr.stateCh <- fs:
+				default:
+				}
 			}
 		}
 		first = false
@@ -354,6 +439,29 @@ func (cr *caseRun) sampler() {
 		}
 		cr.mu.Unlock()
 		time.Sleep(time.Millisecond)
+	}
+}
+
+// stateChecker reads back, while Run() is active, what the follower declares in each distinct
+// intermediate state (bytes actually served only; see checkFollower's non-quiescent mode).
+func (cr *caseRun) stateChecker() {
+	defer close(cr.checkDone)
+	rng := cr.r.Rand("statechecker|" + cr.c.Key)
+	for range cr.stateCh {
+		var st checkStats
+		_, fs := checkFollower(cr.fch, cr.lch, cr.fdir, cr.wd, rng, "while-running", false, &st)
+		cr.mu.Lock()
+		cr.st.bytesCompared += st.bytesCompared
+		cr.st.leaderCompared += st.leaderCompared
+		cr.st.spotReads += st.spotReads
+		cr.st.transientDropped += st.transientDropped
+		cr.st.midChecks++
+		for _, f := range fs {
+			if !f.Harness {
+				cr.findings = append(cr.findings, f)
+			}
+		}
+		cr.mu.Unlock()
 	}
 }
 
@@ -404,7 +512,10 @@ func (cr *caseRun) converged() bool {
 	return fr == cr.lf.curRight()
 }
 
-const maxHandshakes = 4
+const (
+	maxHandshakes  = 4
+	livelockRounds = 6
+)
 
 // waitEvent blocks until a logical event: the follower caught up, Run returned, the armed cut
 // fired, or the follower went through maxHandshakes sessions without catching up.
@@ -413,6 +524,8 @@ func (cr *caseRun) waitEvent(h *follHandle, wantCut bool) string {
 	if h.ret {
 		return "returned"
 	}
+	hs0, xf0 := cr.ln.counts()
+	rpc0 := hs0 + xf0 // rounds are counted from here on: the leader is not being changed while we wait
 	for i := 0; ; i++ {
 		select {
 		case h.err = <-h.done:
@@ -430,6 +543,12 @@ func (cr *caseRun) waitEvent(h *follHandle, wantCut bool) string {
 		}
 		if hs, _ := cr.ln.counts(); hs-cr.hsBase >= maxHandshakes {
 			return "noconv"
+		}
+		// the same request answered the same way livelockRounds times in a row, with a leader that
+		// did not change in between: the follower makes no progress and never will
+		if n, what := cr.ln.identicalRounds(rpc0); n >= livelockRounds {
+			cr.livelock = what
+			return "livelock"
 		}
 		// the open transfer has carried everything the leader holds, yet the follower's declared
 		// range does not say so, and the follower starts no new session either (its retry sleep is
@@ -454,22 +573,24 @@ func (cr *caseRun) waitEvent(h *follHandle, wantCut bool) string {
 }
 
 func (cr *caseRun) check(where string, quiescent bool) chanState {
-	s, fs := checkFollower(cr.fch, cr.lch, cr.c.IDs, cr.rng, where, quiescent, &cr.st)
+	var st checkStats
+	s, fs := checkFollower(cr.fch, cr.lch, cr.fdir, cr.wd, cr.rng, where, quiescent, &st)
+	cr.mu.Lock()
+	cr.st.add(st)
 	for _, f := range fs {
 		if f.Harness && !quiescent {
 			continue // transient while the follower is working
 		}
-		cr.mu.Lock()
 		cr.findings = append(cr.findings, f)
-		cr.mu.Unlock()
 	}
+	cr.mu.Unlock()
 	return s
 }
 
 func (cr *caseRun) switchLeader() error {
 	z := cr.c.ZH
-	if cr.c.BL == backendDisk {
-		// Side finding S1 (pkg/store, not this property): when the log writer is closed right after
+	if cr.c.BL == backendDisk && os.Getenv("VERIF_C16_AVOID_S1") != "" {
+		// Side finding S1 (pkg/store, repaired in the repository; the avoidance is kept on request only): when the log writer is closed right after
 		// a rotation, the empty last segment is dropped from the data set without closing the
 		// readers positioned on it; such a reader (the stream serving the follower) then polls a
 		// removed file for ever and the follower is never told that the leader moved on.  Two
@@ -490,10 +611,13 @@ func (cr *caseRun) switchLeader() error {
 func runCase(r *harness.Run, c *caseSpec, dir string) {
 	fmt.Printf("CASE start %s\n", c.Key)
 	cr := &caseRun{r: r, c: c, rng: r.Rand("oracle|" + c.Key), t0: time.Now(),
-		stopSamp: make(chan struct{}), sampDone: make(chan struct{})}
+		stopSamp: make(chan struct{}), sampDone: make(chan struct{}),
+		stateCh: make(chan chanState, 16), checkDone: make(chan struct{}), checked: map[chanState]bool{}}
+	cr.wd = newWorld(c.IDs, c.LH, c.FH, c.ZH)
 	sk := shortKey(c.Key)
 	ldir, fdir := filepath.Join(dir, "L"), filepath.Join(dir, "F")
 	defer os.RemoveAll(dir)
+	cr.fdir = fdir
 	harnessFail := func(format string, a ...any) {
 		r.Inconclusive("%s: %s", c.Key, fmt.Sprintf(format, a...))
 	}
@@ -530,11 +654,11 @@ func runCase(r *harness.Run, c *caseSpec, dir string) {
 	ff.closeLog()
 	// what was fed must read back before the session starts (else the cache itself is at fault: C05)
 	var st0 checkStats
-	if _, fs := checkFollower(cr.fch, nil, c.IDs, cr.rng, "before", true, &st0); len(fs) > 0 {
+	if _, fs := checkFollower(cr.fch, nil, cr.fdir, cr.wd, cr.rng, "before", true, &st0); len(fs) > 0 {
 		harnessFail("follower's pre-loaded cache does not read back: %s %s", fs[0].Sig, fs[0].What)
 		return
 	}
-	if _, fs := checkFollower(cr.lch, nil, c.IDs, cr.rng, "leader-before", true, &st0); len(fs) > 0 {
+	if _, fs := checkFollower(cr.lch, nil, "", cr.wd, cr.rng, "leader-before", true, &st0); len(fs) > 0 {
 		harnessFail("leader's cache does not read back: %s %s", fs[0].Sig, fs[0].What)
 		return
 	}
@@ -571,6 +695,16 @@ func runCase(r *harness.Run, c *caseSpec, dir string) {
 				})
 			}
 		}
+	case scSwitchRdb:
+		ln.afterSend = func(rec rpcRec) {
+			if rec.Transfer == 0 && rec.NMsgs == 3 && len(rec.Msgs) > 0 && !rec.Msgs[0].Aof {
+				once.Do(func() {
+					hookErr = cr.switchLeader()
+					cr.note("leader restarted under id %.8s while the follower was downloading the snapshot", c.ZH.ID)
+					switched.Store(true)
+				})
+			}
+		}
 	case scBounce:
 		ln.beforeRPC = func(rec rpcRec) {
 			if rec.Transfer == 0 {
@@ -591,12 +725,15 @@ func runCase(r *harness.Run, c *caseSpec, dir string) {
 	// ---- run
 	h := cr.startFollower()
 	go cr.sampler()
+	go cr.stateChecker()
 	samplerStopped := false
 	stopSampler := func() {
 		if !samplerStopped {
 			samplerStopped = true
 			close(cr.stopSamp)
 			<-cr.sampDone
+			close(cr.stateCh)
+			<-cr.checkDone
 		}
 	}
 	defer stopSampler()
@@ -673,10 +810,20 @@ func runCase(r *harness.Run, c *caseSpec, dir string) {
 	} else if !h.ret {
 		wantCut := c.Scn == scCut || c.Scn == scCutRetry
 		midChecked := false
-		if c.Scn == scSwitch2 {
-			// the leader restarts inside the handler of the first meta-sync RPC; live appends go to
-			// the new history
-			waitUntil(caseWatchdog, func() bool { return switched.Load() || len(h.done) > 0 })
+		if c.Scn == scSwitch2 || c.Scn == scSwitchRdb {
+			// the leader restarts inside the handler of the first meta-sync RPC (or in the middle of
+			// the snapshot transfer); live appends go to the new history
+			waitUntil(caseWatchdog, func() bool {
+				if switched.Load() || len(h.done) > 0 {
+					return true
+				}
+				for _, rp := range ln.snapshotRPCs() {
+					if rp.Transfer == 0 && (rp.Done || (len(rp.Msgs) > 0 && rp.Msgs[0].Aof)) {
+						return true // no snapshot transfer to interrupt
+					}
+				}
+				return false
+			})
 		}
 		for bi, b := range c.Bursts {
 			if hookErr != nil {
@@ -756,6 +903,8 @@ func runCase(r *harness.Run, c *caseSpec, dir string) {
 		outcome = "takeover"
 	case ev == "returned":
 		outcome = "returned-other"
+	case ev == "livelock":
+		outcome = "sync-livelock"
 	case ev == "noconv":
 		outcome = "no-convergence"
 	case ev == "delivered":
@@ -787,6 +936,12 @@ func runCase(r *harness.Run, c *caseSpec, dir string) {
 				"follower was ahead of the leader but its cache changed from %v to %v", cr.pre, final),
 				Detail: map[string]any{"follower_after": final}})
 		}
+	}
+	// logical progress: the same sync round repeated livelockRounds times against an unchanged leader
+	if ev == "livelock" {
+		cr.findings = append(cr.findings, finding{Sig: "sync-livelock", What: fmt.Sprintf(
+			"%d identical sync rounds in a row against an unchanged leader (%s): the follower keeps re-requesting the same position, declares %v and never reaches the leader's stream (leader holds id %.8s up to %d)",
+			livelockRounds, cr.livelock, final, cr.lf.curID(), cr.lf.curRight()), Detail: map[string]any{"follower_after": final, "round": cr.livelock}})
 	}
 	// a healthy leader answered every handshake, the follower went through maxHandshakes sessions
 	// and still holds nothing of what the leader has now: it neither joined nor resynchronised
@@ -828,6 +983,8 @@ func runCase(r *harness.Run, c *caseSpec, dir string) {
 	r.Count("snapshot_declared_but_refused", int64(cr.st.refusedSnapshot))
 	r.Count("spot_reads", int64(cr.st.spotReads))
 	r.Count("reader_stalls_resumed", int64(cr.st.resumedReads))
+	r.Count("intermediate_states_read_back", int64(cr.st.midChecks))
+	r.Count("intermediate_reads_dropped_state_moved", int64(cr.st.transientDropped))
 	r.Count("rpcs", int64(len(rpcs)))
 	r.Count("stream_messages", ln.msgsTotal.Load())
 	r.Count("stream_bytes", ln.bytesTotal.Load())
